@@ -55,7 +55,7 @@ func triFams(maxn int) []tfam {
 			return a
 		}, -1, true},
 	}
-	for _, k := range uniq(0, 0, maxn/2, maxn-1) {
+	for k := 0; k < maxn; k++ {
 		k := k
 		fs = append(fs, tfam{fmt.Sprintf("zerodiag%d", k), func(n int) M {
 			a := genDD(11)(n, n)
@@ -96,8 +96,8 @@ func runTrtri(ck *checker, what string, uplo blas.Uplo, diag blas.Diag, a M, lda
 }
 
 func genTri(g *vlib.G) {
-	N := vlib.Pick(g, 10, 12)
-	nbs := vlib.Pick(g, []int{2, 3, 4}, []int{1, 2, 3, 4})
+	N := vlib.Pick(g, 12, 14)
+	nbs := vlib.Pick(g, []int{1, 2, 3, 4}, []int{1, 2, 3, 4, 5})
 	fams := triFams(N)
 	for n := 0; n <= N; n++ {
 		for _, f := range fams {
@@ -156,14 +156,15 @@ func genTri(g *vlib.G) {
 							// Dtrtrs
 							for _, trans := range []blas.Transpose{blas.NoTrans, blas.Trans, blas.ConjTrans} {
 								for _, nrhs := range []int{0, 1, 3} {
-									ldb := imax(1, nrhs) + (nrhs % 2 * 3)
-									ck.ctx = fmt.Sprintf("Dtrtrs trans=%s nrhs=%d", transName(trans), nrhs)
+									pd := ldPads[(nrhs+int(trans))%len(ldPads)]
+									lda, ldb := imax(1, n)+pd[0], imax(1, nrhs)+pd[1]
+									ck.ctx = fmt.Sprintf("Dtrtrs trans=%s nrhs=%d lda=%d ldb=%d", transName(trans), nrhs, lda, ldb)
 									x := xTrue(n, nrhs)
 									op := opOf(tm, trans)
 									b := mul(op, x)
-									as := place(a, imax(1, n), keepTri(uplo, diag))
+									as := place(a, lda, keepTri(uplo, diag))
 									bs := place(b, ldb, nil)
-									ok := impl.Dtrtrs(uplo, trans, diag, n, nrhs, as.d, imax(1, n), bs.d, ldb)
+									ok := impl.Dtrtrs(uplo, trans, diag, n, nrhs, as.d, lda, bs.d, ldb)
 									as.checkRO(ck, "Dtrtrs a")
 									if ok == (singular && n > 0) {
 										ck.failf("Dtrtrs ok=%v, exactly singular=%v", ok, singular)
@@ -227,8 +228,8 @@ func genTri(g *vlib.G) {
 // Dlauum / Dlauu2: exact on integers
 
 func genLauum(g *vlib.G) {
-	N := vlib.Pick(g, 10, 12)
-	nbs := vlib.Pick(g, []int{2, 3, 4}, []int{1, 2, 3, 4})
+	N := vlib.Pick(g, 12, 14)
+	nbs := vlib.Pick(g, []int{1, 2, 3, 4}, []int{1, 2, 3, 4, 5})
 	for n := 0; n <= N; n++ {
 		for _, uplo := range uplos {
 			for _, nb := range nbs {
@@ -288,7 +289,7 @@ func genLauum(g *vlib.G) {
 func bandOfTri(tm M, kd int) M { return bandRestrict(tm, kd) }
 
 func genTriBand(g *vlib.G) {
-	N := vlib.Pick(g, 8, 12)
+	N := vlib.Pick(g, 12, 14)
 	fams := triFams(N)
 	for n := 0; n <= N; n++ {
 		for _, kd := range kdMenu(n, g.Thorough()) {
@@ -309,14 +310,15 @@ func genTriBand(g *vlib.G) {
 							singular := f.zeroDiag >= 0 && diag == blas.NonUnit
 							for _, trans := range []blas.Transpose{blas.NoTrans, blas.Trans, blas.ConjTrans} {
 								for _, nrhs := range []int{0, 1, 3} {
-									for _, pad := range []int{0, 3} {
-										ck.ctx = fmt.Sprintf("trans=%s nrhs=%d pad=%d", transName(trans), nrhs, pad)
+									for _, pd := range ldPads {
+										pad, padB := pd[0], pd[1]
+										ck.ctx = fmt.Sprintf("trans=%s nrhs=%d ldab+%d ldb+%d", transName(trans), nrhs, pad, padB)
 										x := xTrue(n, nrhs)
 										op := opOf(tm, trans)
 										b := mul(op, x)
 										as := placeBand(tm, uplo, kd, kd+1+pad, diag == blas.Unit)
-										bs := place(b, imax(1, nrhs)+pad, nil)
-										ok := impl.Dtbtrs(uplo, trans, diag, n, kd, nrhs, as.d, kd+1+pad, bs.d, imax(1, nrhs)+pad)
+										bs := place(b, imax(1, nrhs)+padB, nil)
+										ok := impl.Dtbtrs(uplo, trans, diag, n, kd, nrhs, as.d, kd+1+pad, bs.d, imax(1, nrhs)+padB)
 										as.checkRO(ck, "Dtbtrs a")
 										if ok == (singular && n > 0) {
 											ck.failf("Dtbtrs ok=%v, exactly singular=%v", ok, singular)
@@ -397,7 +399,7 @@ func latrsCheck(ck *checker, name string, op M, b, x []float64, scale float64, s
 }
 
 func genLatrs(g *vlib.G) {
-	N := vlib.Pick(g, 8, 12)
+	N := vlib.Pick(g, 12, 14)
 	type scen struct {
 		name     string
 		dexp     int // diagonal scaled by 2^dexp
